@@ -521,6 +521,138 @@ def _load_atoms(t, p):
     return force, changed, updated, existing, overwrite
 
 
+def _fresh_rules(prog, lr, v, depth=2):
+    """`Rules()` / `Rules(default_rule=...)` without initial entries, also
+    through a helper that only builds the store from its arguments."""
+    if not isinstance(v, ast.Call):
+        return False
+    if prog.resolve(lr.module, v.func) == POLICY + '.Rules':
+        return not v.args or is_const(v.args[0], None)
+    g = prog.callee_of(lr, v)
+    if g is None or depth <= 0:
+        return False
+    body = [s for s in g.node.body if not (isinstance(s, ast.Expr) and
+                                           isinstance(s.value, ast.Constant))]
+    if len(body) != 1 or not isinstance(body[0], ast.Return) or \
+            not isinstance(body[0].value, ast.Call):
+        return False
+    inner = body[0].value
+    if prog.resolve(g.module, inner.func) != POLICY + '.Rules':
+        return False
+    if not inner.args:
+        return True
+    a = inner.args[0]
+    if is_const(a, None):
+        return True
+    if not isinstance(a, ast.Name) or a.id not in g.params:
+        return False
+    # the parameter is left at its None default by this call
+    ga = g.node.args
+    names = [x.arg for x in ga.posonlyargs + ga.args]
+    off = 1 if names and names[0] in ('self', 'cls') and isinstance(
+        v.func, ast.Attribute) else 0
+    i = names.index(a.id) - off
+    given = kwarg(v, a.id, i)
+    if given is not None:
+        return is_const(given, None)
+    nd = len(ga.defaults)
+    j = names.index(a.id) - (len(names) - nd)
+    return 0 <= j < nd and is_const(ga.defaults[j], None)
+
+
+def check_dir_forced(ctx, rule='C10.REAPPLY'):
+    """When the directories are re-applied (the store was reset just before),
+    every file in them is read and applied, whatever the file cache says: the
+    force flag that reaches the per-file loader is the constant True."""
+    prog = ctx.prog
+    r = roles(ctx)
+    ld = r.loader
+    force_param = None
+    for n in walk_no_nested(ld.node):
+        if isinstance(n, ast.Call) and prog.resolve(
+                ld.module, n.func) == CACHE + '.read_cached_file':
+            a = kwarg(n, 'force_reload', 1)
+            if isinstance(a, ast.Name) and a.id in ld.params:
+                force_param = a.id
+    if force_param is None or r.walker is None:
+        ctx.assume('%s: the force parameter of the per-file loader was not '
+                   'identified; the directory force flag is not decided'
+                   % rule)
+        return
+
+    idx = ld.params.index(force_param) - 1     # without self
+    seen = {}
+    w = r.walker
+    wa = w.node.args
+    named = [a.arg for a in wa.posonlyargs + wa.args]
+    # fast path: the walker forwards its *args to a function parameter
+    fwd = None
+    for n in walk_no_nested(w.node):
+        if isinstance(n, ast.Call) and isinstance(n.func, ast.Name) and \
+                n.func.id in named and wa.vararg is not None and n.args \
+                and isinstance(n.args[-1], ast.Starred) and U(
+                    n.args[-1].value) == wa.vararg.arg and not any(
+                        isinstance(a, ast.Starred) for a in n.args[:-1]):
+            fwd = (named.index(n.func.id), len(n.args) - 1)
+    t = load_table(ctx)
+    if fwd is not None:
+        fpos, k = fwd
+        off = 1 if named and named[0] == 'self' else 0
+        for p in t.paths:
+            for e in p.events:
+                if classify_event(t, e) != 'DIR':
+                    continue
+                x = e.node
+                pos = list(x.args)
+                if any(isinstance(a, ast.Starred) for a in pos) or \
+                        len(pos) <= fpos - off:
+                    seen[(e.line, 'unrecognised call shape')] = False
+                    continue
+                fn = t.expand(pos[fpos - off])
+                fr = prog.functions.get(e.frame, r.load_body)
+                if not (isinstance(fn, ast.Attribute) and prog.find_method(
+                        ENF, fn.attr) is ld):
+                    continue
+                extra = pos[len(named) - off:]
+                j = idx - k
+                v = t.expand(extra[j]) if 0 <= j < len(extra) else None
+                key = (e.line, U(v) if v is not None else None)
+                if key not in seen:
+                    seen[key] = is_const(v, True)
+    else:
+        def inl(call, frame):
+            g = prog.callee_of(frame, call)
+            return g if g is r.walker else None
+        t = Table(prog, r.load_body, inline=inl, max_paths=200000)
+        for p in t.paths:
+            for e in p.events:
+                if e.kind not in ('call', 'maycall') or not isinstance(
+                        e.node, ast.Call) or e.frame != r.walker.qual:
+                    continue
+                x = t.expand(e.node)
+                g = prog.callee_of(r.walker, e.node) or prog.callee_of(
+                    r.load_body, x)
+                if g is not ld:
+                    continue
+                a = kwarg(x, force_param, idx)
+                v = t.expand(a) if a is not None else None
+                key = (e.line, U(v) if v is not None else None)
+                if key not in seen:
+                    seen[key] = is_const(v, True)
+    bad = [k for k, ok in seen.items() if not ok]
+    F = ctx.where(r.walker.module, r.walker.node)
+    ctx.ob(rule, not bad, '%s:%d' % (F.split(':')[0], bad[0][0]) if bad
+           else F, r.walker.qual,
+           'force flag reaching the per-file loader from the directory walk '
+           '(%d call shapes)' % len(seen),
+           'directory files are always re-read and re-applied' if not bad
+           else 'the directory walk passes %s=%s to the per-file loader: '
+           'the store was reset just before, so a file the cache considers '
+           'unchanged is skipped and its rules silently drop out of the '
+           'reloaded policy' % (force_param, bad[0][1]))
+    ctx.floor(rule, len(seen), 1, 'per-file loader calls from the walk')
+
+
 def check_reapply_and_reset(ctx):
     prog = ctx.prog
     t = load_table(ctx)
@@ -568,10 +700,7 @@ def check_reapply_and_reset(ctx):
                                 force:
                             ok = True
                     if k == 'RESET-RULES':
-                        v = t.expand(e.value)
-                        if isinstance(v, ast.Call) and prog.resolve(
-                                lr.module, v.func) == POLICY + '.Rules' \
-                                and not v.args:
+                        if _fresh_rules(prog, lr, t.expand(e.value)):
                             got_rules = True
                     if k == 'RESET-FILE':
                         v = t.expand(e.value)
@@ -660,21 +789,23 @@ def check_pair(ctx):
            'the loader does not give the same overwrite mode to the rule '
            'store and to the file-rule record')
     t = Table(prog, rec)
-    ok = False
+    ok = True
     seen = False
     for p in t.paths:
-        for c in p.conds:
-            if c.kind == 'test' and U(c.expr) == 'overwrite':
-                seen = True
-                reset = any(e.kind == 'store' and U(e.node) ==
-                            'self.file_rules' and isinstance(
-                                t.expand(e.value), ast.Dict)
-                            for e in p.events)
-                if c.pol and reset:
-                    ok = True
-                if c.pol and not reset:
-                    ok = False
-                    break
+        if p.outcome.kind == 'raise':
+            continue
+        pols = [c.pol for c in p.conds
+                if c.kind == 'test' and U(c.expr) == 'overwrite']
+        if pols:
+            seen = True
+        if pols and not all(pols):
+            continue
+        # this path is taken in overwrite mode
+        reset = any(e.kind == 'store' and U(e.node) ==
+                    'self.file_rules' and 'self.file_rules' not in
+                    U(t.expand(e.value)) for e in p.events)
+        if not reset:
+            ok = False
     ctx.ob('C10.PAIR', ok and seen, ctx.where(rec.module, rec.node),
            rec.qual, 'recorder overwrite',
            'overwrite mode starts the file-rule record afresh'
@@ -725,7 +856,10 @@ def check(ctx):
     check_stale(ctx)
     check_dir_mtime(ctx)
     check_reapply_and_reset(ctx)
+    check_dir_forced(ctx)
     check_pair(ctx)
+    from ..load_model import check_merge_memo
+    check_merge_memo(ctx, 'C10.DEFAULTS(MEMO)')
     # C10.FIND: a policy file created after start-up is found (= C09.FIND)
     from . import c09
     nf, no = len(ctx.findings), len(ctx.obligations)
